@@ -18,7 +18,7 @@ Lemma FdInv_unreg_start : forall s k, FdInv (-1) s -> registered (fdt s k) = tru
   FdInv k (putfd s k (fd_with_registered (fdt s k) false)).
 Proof.
   intros s k I R. pose proof (fv_range _ _ I k R) as RG.
-  eapply FdInv_transfer; [exact I| | | | |reflexivity..].
+  eapply FdInv_transfer; [exact I| | | | |(repeat split)..].
   - intros k0. unfold live. sp. unfold upd. destruct (Z.eqb_spec k0 k) as [->|N].
     + cbn [fd_with_registered registered]. rewrite R. intuition lia.
     + intuition lia.
@@ -319,4 +319,351 @@ Proof.
   change (pkeys s5) with (pkeys s4). change (kern s5) with (kern s4).
   destruct NUM as [-> ->].
   repeat split; try assumption.
+Qed.
+
+(* ---------- iv_fd_register ---------- *)
+Record RegPre (s : core) (k : Z) : Prop := {
+  rp_unreg : registered (fdt s k) = false;
+  rp_range : 0 <= k <= 32;
+  rp_open : k_open (kern s) (fdnum (fdt s k)) <> None;
+  rp_dyn : 16 <= k -> 1000 <= fdnum (fdt s k);
+  rp_inj : forall k', registered (fdt s k') = true -> fdnum (fdt s k') <> fdnum (fdt s k);
+  rp_absent : ep_find (ep (kern s)) (fdnum (fdt s k)) = false;
+}.
+
+Lemma RegPre_user : forall s k, FdInv (-1) s -> 0 <= k < 16 -> registered (fdt s k) = false ->
+  k_open (kern s) (fdnum (fdt s k)) <> None -> RegPre s k.
+Proof.
+  intros s k I K R O. pose proof (fv_user _ _ I k K) as FN. constructor; try assumption; try lia.
+  - intros k' R' Q. pose proof (live_reg _ _ _ I R' (-1)) as L'.
+    destruct (Z_lt_ge_dec k' 16) as [Lt|Ge].
+    + assert (0 <= k') by (destruct L'; lia). rewrite (fv_user _ _ I k') in Q by lia.
+      assert (k' = k) by lia. subst. congruence.
+    + pose proof (fv_dyn _ _ I k' ltac:(lia) L'). lia.
+  - apply ep_find_false. intros e H Q.
+    destruct (fv_ent _ _ I e H) as [(A&B&_)|[(_&_&_&_&A)|(_&_&_&A)]]; try lia.
+    apply live_none in A. destruct A as [A1 A2].
+    destruct (Z_lt_ge_dec (en_data e) 16) as [Lt|Ge].
+    + rewrite (fv_user _ _ I (en_data e)) in B by lia. assert (en_data e = k) by lia. congruence.
+    + pose proof (fv_dyn _ _ I (en_data e) ltac:(lia) ltac:(apply live_none; tauto)). lia.
+Qed.
+
+Lemma prologue_ok : forall s k, FdInv (-1) s -> RegPre s k ->
+  let s' := register_prologue s k in
+  FdInv (-1) s' /\ FdStep k s s' /\ registered (fdt s' k) = true /\ keepN s s' /\ kern s' = kern s.
+Proof.
+  intros s k I [R RG O D J F]. unfold register_prologue, getfd. cbv zeta.
+  set (f1 := fd_with_bands (fd_with_registered (fdt s k) true) (wanted (fdt s k)) 0 0).
+  set (f' := if is_epoll s then f1 else fd_with_pidx f1 (-1)).
+  assert (Q : registered f' = true /\ regb f' = 0 /\ fdnum f' = fdnum (fdt s k) /\ hsame f' (fdt s k) /\
+              (is_epoll s = false -> pidx f' = -1)).
+  { subst f' f1. destruct (is_epoll s); repeat split; congruence. }
+  destruct Q as (Q1 & Q2 & Q3 & Q4 & Q5).
+  split; [apply FdInv_revive; try assumption; rewrite ?Q3; assumption|].
+  split; [apply FdStep_putfd; assumption|]. sp. rewrite upd_same.
+  split; [assumption|]. split; [constructor; reflexivity|reflexivity].
+Qed.
+
+Definition RegPost (k : Z) (s s' : core) : Prop :=
+  FdInv (-1) s' /\ FdStep k s s' /\ registered (fdt s' k) = true /\ sync_at s' k /\
+  active s' = active s /\ handled s' = handled s /\
+  numfds s' = numfds s + 1 /\ numobjs s' = numobjs s + 1.
+
+Lemma FdStep_bands : forall k s s', FdStep k s s' -> bands_of (fdt s' k) = bands_of (fdt s k).
+Proof. intros k s s' H. destruct (fs_hsame _ _ _ H k) as (_&A&B&C&_). unfold bands_of. rewrite A, B, C. reflexivity. Qed.
+
+Lemma fd_register_ok : forall s k, FdInv (-1) s -> RegPre s k -> okr (RegPost k s) (fd_register s k).
+Proof.
+  intros s k I P. unfold fd_register.
+  destruct (prologue_ok s k I P) as (I1 & S1 & R1 & K1 & KK1). cbv zeta in *.
+  set (s1 := register_prologue s k) in *.
+  assert (L1 : live s1 (-1) k) by (apply live_none; split; [apply (rp_range _ _ P)|assumption]).
+  eapply okr_bind; [apply (notify_fd_ok (-1) s1 k I1 L1)|].
+  intros s2 (I2 & S2 & K2 & KK2 & A2 & B2 & C2 & D2). cbn [okr]. unfold register_epilogue, RegPost.
+  rewrite R1 in A2, B2.
+  split; [apply FdInv_numfds, FdInv_numobjs; assumption|].
+  assert (S02 : FdStep k s s2) by (eapply FdStep_trans; eassumption).
+  split; [eapply FdStep_trans; [exact S02|]; apply FdStep_frame; try reflexivity; constructor; reflexivity|].
+  sp. split; [assumption|].
+  split.
+  { apply sync_at_same with (s := s2); try reflexivity. apply sync_at_intro; [|assumption].
+    intros _. rewrite B2. symmetry. apply (FdStep_bands _ _ _ S2). }
+  rewrite (kn_active _ _ K2), (kn_active _ _ K1), (kn_handled _ _ K2), (kn_handled _ _ K1),
+          (kn_numfds _ _ K2), (kn_numfds _ _ K1), (kn_numobjs _ _ K2), (kn_numobjs _ _ K1).
+  repeat split.
+Qed.
+
+(* ---------- states that differ only in the descriptor table ---------- *)
+Record fdtonly (s s' : core) : Prop := {
+  fo_rest : restsame s s'; fo_keep : keepN s s';
+  fo_notify : notify s' = notify s; fo_pfds : pfds s' = pfds s; fo_pkeys : pkeys s' = pkeys s;
+  fo_kern : kern s' = kern s;
+}.
+Lemma fdtonly_refl : forall s, fdtonly s s.
+Proof. intros; constructor; try reflexivity; [apply restsame_refl|apply keepN_refl]. Qed.
+Lemma fdtonly_trans : forall a b c, fdtonly a b -> fdtonly b c -> fdtonly a c.
+Proof.
+  intros a b c [A1 A2 A3 A4 A5 A6] [B1 B2 B3 B4 B5 B6]. constructor; try congruence.
+  - eapply restsame_trans; eassumption.
+  - eapply keepN_trans; eassumption.
+Qed.
+Lemma fdtonly_putfd : forall s k f, fdtonly s (putfd s k f).
+Proof. intros; constructor; try reflexivity; constructor; reflexivity. Qed.
+
+Lemma FdStep_ptw : forall k s s', fdtonly s s' -> (forall k0, k0 <> k -> fdt s' k0 = fdt s k0) ->
+  hsame (fdt s' k) (fdt s k) -> FdStep k s s'.
+Proof.
+  intros k s s' [R K N P PK KE] U H. constructor; try assumption.
+  - rewrite KE. apply kctl_refl.
+  - rewrite KE. tauto.
+  - intros k0. destruct (Z.eq_dec k0 k) as [->|Q]; [assumption|rewrite U by assumption; apply hsame_refl].
+  - intros k0 Q. rewrite U by assumption. reflexivity.
+  - intros k0 Q. apply sync_at_same; try congruence.
+    + apply U. assumption.
+    + apply restsame_epoll. assumption.
+    + rewrite N. tauto.
+Qed.
+
+Lemma FdInv_revive_gen : forall s s' k, FdInv (-1) s -> fdtonly s s' ->
+  (forall k0, k0 <> k -> fdt s' k0 = fdt s k0) ->
+  registered (fdt s k) = false -> 0 <= k <= 32 ->
+  registered (fdt s' k) = true -> regb (fdt s' k) = 0 -> fdnum (fdt s' k) = fdnum (fdt s k) ->
+  (is_epoll s = false -> pidx (fdt s' k) = -1) ->
+  k_open (kern s) (fdnum (fdt s k)) <> None -> (16 <= k -> 1000 <= fdnum (fdt s k)) ->
+  (forall k', registered (fdt s k') = true -> fdnum (fdt s k') <> fdnum (fdt s k)) ->
+  ep_find (ep (kern s)) (fdnum (fdt s k)) = false ->
+  FdInv (-1) s'.
+Proof.
+  intros s s' k I FO UP R RG R' B' N' P' O' D' J' F'.
+  set (s1 := putfd s k (fdt s' k)).
+  assert (I1 : FdInv (-1) s1) by (apply FdInv_revive; try assumption; rewrite ?N'; assumption).
+  destruct FO as [RS KN NO PF PK KE].
+  eapply FdInv_eq; [exact I1| |try (destruct KN; assumption); try assumption; try apply RS..].
+  intros k0. subst s1. sp. unfold upd. destruct (Z.eqb_spec k0 k) as [->|Q]; [tauto|].
+  rewrite UP by assumption. tauto.
+Qed.
+
+(* ---------- iv_fd_register_try ---------- *)
+Definition try_s2 (s : core) (k : Z) : core :=
+  let s1 := register_prologue s k in putfd s1 k (recompute_wanted (getfd s1 k)).
+Definition try_orig (s : core) (k : Z) : Z := wanted (getfd (try_s2 s k) k).
+Definition try_s3 (s : core) (k : Z) : core :=
+  let s2 := try_s2 s k in
+  if try_orig s k =? 0 then putfd s2 k (fd_with_wanted (getfd s2 k) (M_IN + M_OUT)) else s2.
+
+Definition try_fail (k : Z) (s : core) : res :=
+  let s := putfd s k (fd_with_registered (getfd s k) false) in
+  if is_epoll s then epoll_unregister_fd s k else R s.
+Definition try_succ (k orig : Z) (s : core) : res :=
+  bind (if orig =? 0 then m_notify_fd (putfd s k (fd_with_wanted (getfd s k) 0)) k else R s)
+       (fun s => R (register_epilogue s)).
+
+Lemma fd_register_try_unfold : forall s k,
+  fd_register_try s k =
+  let s3 := try_s3 s k in
+  let '(r, failed) :=
+    if is_epoll s3 then (let '(s1, fl) := epoll_flush_one_ s3 k in (R s1, fl))
+    else poll_notify_fd_sync s3 k in
+  if failed then (bind r (try_fail k), true) else (bind r (try_succ k (try_orig s k)), false).
+Proof. reflexivity. Qed.
+
+Lemma try_s3_facts : forall s k,
+  let s3 := try_s3 s k in
+  fdtonly s s3 /\ (forall k0, k0 <> k -> fdt s3 k0 = fdt s k0) /\
+  registered (fdt s3 k) = true /\ regb (fdt s3 k) = 0 /\ hsame (fdt s3 k) (fdt s k) /\
+  wanted (fdt s3 k) <> 0 /\ (is_epoll s = false -> pidx (fdt s3 k) = -1) /\
+  try_orig s k = bands_of (fdt s k) /\
+  (try_orig s k <> 0 -> wanted (fdt s3 k) = try_orig s k).
+Proof.
+  intros s k. cbv zeta.
+  assert (O : try_orig s k = bands_of (fdt s k)).
+  { unfold try_orig, try_s2, register_prologue, getfd. sp. rewrite !upd_same.
+    destruct (is_epoll s); reflexivity. }
+  unfold try_s3. rewrite O. unfold try_s2, register_prologue, getfd. sp. rewrite ?upd_same.
+  assert (BN : 0 <= bands_of (fdt s k)).
+  { unfold bands_of, M_IN, M_OUT, M_ERR. destruct (h_in (fdt s k)), (h_out (fdt s k)), (h_err (fdt s k)); lia. }
+  destruct (Z.eqb_spec (bands_of (fdt s k)) 0) as [Z0|NZ]; sp; rewrite ?upd_same.
+  - split; [constructor; try reflexivity; constructor; reflexivity|].
+    split; [intros k0 N; rewrite !upd_other by assumption; reflexivity|].
+    destruct (is_epoll s); cbn; repeat split; try discriminate; try congruence.
+  - split; [constructor; try reflexivity; constructor; reflexivity|].
+    split; [intros k0 N; rewrite !upd_other by assumption; reflexivity|].
+    destruct (is_epoll s); cbn; repeat split; try discriminate; try congruence; exact NZ.
+Qed.
+
+Lemma poll_revents_open : forall k fd ev, k_open k fd <> None -> has (poll_revents k fd ev) P_NVAL = false.
+Proof.
+  intros k fd ev H. unfold poll_revents. destruct (k_open k fd); [|congruence].
+  repeat match goal with |- context[if ?b then _ else _] => destruct b end; reflexivity.
+Qed.
+Lemma poll_revents_closed : forall k fd ev, k_open k fd = None -> has (poll_revents k fd ev) P_NVAL = true.
+Proof. intros k fd ev H. unfold poll_revents. rewrite H. reflexivity. Qed.
+
+Definition TryPost (k : Z) (s : core) (failed : bool) (s' : core) : Prop :=
+  FdInv (-1) s' /\ FdStep k s s' /\ active s' = active s /\ handled s' = handled s /\
+  (if failed then registered (fdt s' k) = false /\ numfds s' = numfds s /\ numobjs s' = numobjs s
+   else registered (fdt s' k) = true /\ sync_at s' k /\ numfds s' = numfds s + 1 /\ numobjs s' = numobjs s + 1).
+
+(* the descriptor is closed: the registration fails and everything is rolled back *)
+Lemma try_closed : forall s k, FdInv (-1) s -> 0 <= k < 16 -> registered (fdt s k) = false ->
+  k_open (kern s) (fdnum (fdt s k)) = None ->
+  snd (fd_register_try s k) = true /\ okr (TryPost k s true) (fst (fd_register_try s k)).
+Proof.
+  intros s k I K R C. rewrite fd_register_try_unfold. cbv zeta.
+  destruct (try_s3_facts s k) as (FO & UP & R3 & B3 & H3 & W3 & P3 & O3 & OW3). cbv zeta in *.
+  set (s3 := try_s3 s k) in *.
+  assert (E3 : is_epoll s3 = is_epoll s) by (apply restsame_epoll; apply (fo_rest _ _ FO)).
+  assert (NL : ~ live s (-1) k) by (rewrite live_none; intros [_ Q]; congruence).
+  assert (NN : ~ In k (notify s)) by (intros Q; apply NL; apply (fv_notify _ _ I); assumption).
+  assert (FN3 : fdnum (fdt s3 k) = fdnum (fdt s k)) by apply H3.
+  (* a generic closing argument: a state that differs from s in the object k (unregistered),
+     and in the kernel outside the interest list *)
+  assert (FIN : forall sf, (forall k0, k0 <> k -> fdt sf k0 = fdt s k0) -> hsame (fdt sf k) (fdt s k) ->
+            registered (fdt sf k) = false -> restsame s sf -> keepN s sf -> notify sf = notify s ->
+            pfds sf = pfds s -> pkeys sf = pkeys s -> kctl (kern s) (kern sf) -> ep (kern sf) = ep (kern s) ->
+            TryPost k s true sf).
+  { intros sf U H Rf RS KN NO PF PK KC EP. unfold TryPost.
+    split.
+    - eapply FdInv_transfer; [exact I| | | | |try (destruct KN; assumption); try assumption; try apply RS..].
+      + intros k0. unfold live. destruct (Z.eq_dec k0 k) as [->|Q]; [rewrite Rf, R; tauto|rewrite U by assumption; tauto].
+      + intros k0 Q. destruct (Z.eq_dec k0 k) as [->|Q']; [congruence|]. rewrite U in Q by assumption. apply (fv_range _ _ I); assumption.
+      + intros k0 Q. destruct (Z.eq_dec k0 k) as [->|Q']; [destruct H as (->&_)|rewrite U by assumption]; apply (fv_user _ _ I); assumption.
+      + intros k0 Q. assert (k0 <> k) by (intro; subst; contradiction). rewrite U by assumption. tauto.
+      + split; [assumption|]. split; intros fd; [apply kctl_open|apply kctl_get]; assumption.
+    - split.
+      + constructor; try assumption.
+        * rewrite EP. tauto.
+        * intros k0. destruct (Z.eq_dec k0 k) as [->|Q]; [assumption|rewrite U by assumption; apply hsame_refl].
+        * intros k0 Q. rewrite U by assumption. reflexivity.
+        * intros k0 Q. apply sync_at_same; try congruence; [apply U; assumption|apply restsame_epoll; assumption|rewrite NO; tauto].
+      + destruct KN. repeat split; assumption. }
+  destruct (is_epoll s3) eqn:E.
+  - (* epoll: EBADF *)
+    assert (NE : regb (fdt s3 k) <> wanted (fdt s3 k)) by congruence.
+    destruct (flush_one_ne s3 k NE) as (k' & KC & EP & FL). cbv zeta in *.
+    assert (KS : kern s3 = kern s) by apply (fo_kern _ _ FO).
+    assert (CP : forall op ev d, ctl_pure (kern s3) op (fdnum (fdt s3 k)) ev d = (ep (kern s3), Some EBADF)).
+    { intros. unfold ctl_pure. rewrite KS, FN3, C. reflexivity. }
+    rewrite CP in FL, EP. cbn [fst snd] in FL, EP. rewrite FL. cbn [fst snd bind].
+    split; [reflexivity|]. unfold try_fail, getfd.
+    set (s4 := set_kern (set_notify s3 (remove_z k (notify s3))) k').
+    set (s5 := putfd s4 k (fd_with_registered (fdt s4 k) false)).
+    assert (E5 : is_epoll s5 = true) by exact E. rewrite E5.
+    assert (N5 : notify s5 = notify s).
+    { subst s5 s4. sp. rewrite (fo_notify _ _ FO). apply remz_notin. assumption. }
+    unfold epoll_unregister_fd.
+    assert (M : mem_z k (notify s5) = false) by (apply memz_nIn; rewrite N5; assumption).
+    rewrite M. cbn [okr]. apply FIN; subst s5 s4; sp; rewrite ?upd_same; try reflexivity; try assumption.
+    all: try (apply (fo_pfds _ _ FO)). all: try (apply (fo_pkeys _ _ FO)).
+    all: try (destruct (fo_rest _ _ FO); constructor; assumption).
+    all: try (destruct (fo_keep _ _ FO); constructor; assumption).
+    all: try (rewrite <- KS; assumption). all: try (rewrite EP, KS; reflexivity).
+    all: try (intros k0 Q; rewrite upd_other by assumption; apply UP; assumption).
+  - (* poll: POLLNVAL *)
+    unfold poll_notify_fd_sync, getfd.
+    rewrite (fo_kern _ _ FO), FN3, (poll_revents_closed _ _ _ C). cbn [fst snd bind].
+    split; [reflexivity|]. unfold try_fail, getfd.
+    set (s5 := putfd s3 k (fd_with_registered (fdt s3 k) false)).
+    assert (E5 : is_epoll s5 = false) by exact E. rewrite E5. cbn [okr].
+    apply FIN; subst s5; sp; rewrite ?upd_same; try reflexivity; try assumption.
+    all: try (apply (fo_pfds _ _ FO)). all: try (apply (fo_pkeys _ _ FO)). all: try (apply (fo_notify _ _ FO)).
+    all: try (apply (fo_rest _ _ FO)). all: try (apply (fo_keep _ _ FO)).
+    all: try (rewrite (fo_kern _ _ FO); apply kctl_refl). all: try (rewrite (fo_kern _ _ FO); reflexivity).
+    all: try (intros k0 Q; rewrite upd_other by assumption; apply UP; assumption).
+    all: try (destruct (fo_rest _ _ FO); constructor; assumption).
+    all: try (destruct (fo_keep _ _ FO); constructor; assumption).
+Qed.
+
+Definition BackPost (k : Z) (s s' : core) : Prop :=
+  FdInv (-1) s' /\ FdStep k s s' /\ keepN s s' /\ registered (fdt s' k) = true /\
+  wanted (fdt s' k) = wanted (fdt s k) /\ sync_core s' k.
+
+Lemma try_succ_ok : forall s0 s k orig, BackPost k s0 s -> 0 <= k <= 32 ->
+  orig = bands_of (fdt s0 k) -> (orig <> 0 -> wanted (fdt s0 k) = orig) ->
+  okr (fun s' => FdInv (-1) s' /\ FdStep k s0 s' /\ active s' = active s0 /\ handled s' = handled s0 /\
+                 registered (fdt s' k) = true /\ sync_at s' k /\
+                 numfds s' = numfds s0 + 1 /\ numobjs s' = numobjs s0 + 1)
+      (try_succ k orig s).
+Proof.
+  intros s0 s k orig (I & S & K & RT & W & SC) RG O OW. unfold try_succ, getfd.
+  assert (EPI : forall s1, FdInv (-1) s1 -> FdStep k s0 s1 -> keepN s0 s1 -> registered (fdt s1 k) = true ->
+                 wanted (fdt s1 k) = orig -> sync_core s1 k ->
+                 okr (fun s' => FdInv (-1) s' /\ FdStep k s0 s' /\ active s' = active s0 /\ handled s' = handled s0 /\
+                                registered (fdt s' k) = true /\ sync_at s' k /\
+                                numfds s' = numfds s0 + 1 /\ numobjs s' = numobjs s0 + 1)
+                     (R (register_epilogue s1))).
+  { intros s1 I1 S1 K1 R1 W1 SC1. cbn [okr]. unfold register_epilogue.
+    split; [apply FdInv_numfds, FdInv_numobjs; assumption|].
+    split; [eapply FdStep_trans; [exact S1|]; apply FdStep_frame; try reflexivity; constructor; reflexivity|].
+    sp. destruct K1 as [A B C D]. rewrite A, B, C, D.
+    split; [reflexivity|]. split; [reflexivity|]. split; [assumption|].
+    split; [|split; reflexivity].
+    apply sync_at_same with (s := s1); try reflexivity. apply sync_at_intro; [|assumption].
+    intros _. rewrite W1, O. symmetry. apply (FdStep_bands _ _ _ S1). }
+  destruct (Z.eqb_spec orig 0) as [Z0|NZ].
+  - set (s1 := putfd s k (fd_with_wanted (fdt s k) 0)).
+    assert (I1 : FdInv (-1) s1) by (apply FdInv_putfd_soft; [assumption|reflexivity..]).
+    assert (S1 : FdStep k s s1) by (apply FdStep_putfd; repeat split).
+    assert (L1 : live s1 (-1) k).
+    { apply live_none. split; [assumption|]. subst s1. sp. rewrite upd_same. exact RT. }
+    eapply okr_bind; [apply (m_notify_ok (-1) s1 k I1 L1)|].
+    intros s2 (I2 & S2 & K2 & _ & R2 & W2 & _ & SC2).
+    apply EPI; try assumption.
+    + eapply FdStep_trans; [exact S|]. eapply FdStep_trans; eassumption.
+    + eapply keepN_trans; [exact K|]. eapply keepN_trans; [|exact K2]. constructor; reflexivity.
+    + rewrite R2. subst s1. sp. rewrite upd_same. exact RT.
+    + rewrite W2. subst s1. sp. rewrite upd_same. cbn. congruence.
+  - cbn [bind]. apply EPI; try assumption. rewrite W. apply OW. assumption.
+Qed.
+
+Lemma try_open : forall s k, FdInv (-1) s -> 0 <= k < 16 -> registered (fdt s k) = false ->
+  k_open (kern s) (fdnum (fdt s k)) <> None ->
+  snd (fd_register_try s k) = false /\ okr (TryPost k s false) (fst (fd_register_try s k)).
+Proof.
+  intros s k I K RU O. rewrite fd_register_try_unfold. cbv zeta.
+  destruct (try_s3_facts s k) as (FO & UP & R3 & B3 & H3 & W3 & P3 & O3 & OW3). cbv zeta in *.
+  set (s3 := try_s3 s k) in *.
+  pose proof (RegPre_user s k I K RU O) as [_ RG _ D J F].
+  assert (E3 : is_epoll s3 = is_epoll s) by (apply restsame_epoll; apply (fo_rest _ _ FO)).
+  assert (FN3 : fdnum (fdt s3 k) = fdnum (fdt s k)) by apply H3.
+  assert (I3 : FdInv (-1) s3) by (eapply FdInv_revive_gen with (s := s) (k := k); eassumption).
+  assert (S3 : FdStep k s s3) by (apply FdStep_ptw; assumption).
+  assert (L3 : live s3 (-1) k) by (apply live_none; tauto).
+  assert (CONT : forall s4, BackPost k s3 s4 ->
+            okr (TryPost k s false) (bind (R s4) (try_succ k (try_orig s k)))).
+  { intros s4 BP. cbn [bind].
+    eapply okr_weaken; [apply (try_succ_ok s3 s4 k (try_orig s k) BP RG)|].
+    - rewrite O3. symmetry. destruct H3 as (_&A&B&C&_). unfold bands_of. rewrite A, B, C. reflexivity.
+    - intros NZ. apply OW3. assumption.
+    - intros s' (A & B & C & D' & E' & F' & G & H). unfold TryPost.
+      split; [assumption|]. split; [eapply FdStep_trans; eassumption|].
+      rewrite C, D', G, H, (kn_active _ _ (fo_keep _ _ FO)), (kn_handled _ _ (fo_keep _ _ FO)),
+              (kn_numfds _ _ (fo_keep _ _ FO)), (kn_numobjs _ _ (fo_keep _ _ FO)).
+      split; [reflexivity|]. split; [reflexivity|]. split; [assumption|]. split; [assumption|]. split; reflexivity. }
+  destruct (is_epoll s3) eqn:E.
+  - destruct (flush_one_ok (-1) s3 k I3 E L3) as (s4 & FL & I4 & S4 & K4 & A4 & B4 & C4 & D4).
+    rewrite FL. cbn [fst snd]. split; [reflexivity|]. apply CONT. unfold BackPost.
+    split; [assumption|]. split; [assumption|]. split; [destruct K4; constructor; assumption|].
+    split; [congruence|]. split; [assumption|].
+    assert (E4 : is_epoll s4 = true) by (rewrite (restsame_epoll _ _ (fs_rest _ _ _ S4)); assumption).
+    split; [intros _|congruence]. rewrite D4, A4, B4. split; [intros H; apply In_remz in H; tauto|tauto].
+  - unfold poll_notify_fd_sync, getfd. rewrite (fo_kern _ _ FO), FN3, (poll_revents_open _ _ _ O).
+    cbn [fst snd]. split; [reflexivity|].
+    pose proof (poll_notify_ok (-1) s3 k I3 E L3) as PN.
+    destruct (poll_notify_fd s3 k) as [s4|s4]; [|exact PN]. cbn [okr] in PN.
+    destruct PN as (I4 & S4 & K4 & FD4 & P4 & EV4).
+    apply CONT. unfold BackPost. destruct (FD4 k) as (i & Q).
+    assert (W4 : wanted (fdt s4 k) = wanted (fdt s3 k)) by (rewrite Q; reflexivity).
+    split; [assumption|]. split; [assumption|]. split; [destruct K4; constructor; assumption|].
+    split; [rewrite Q; exact R3|]. split; [assumption|].
+    assert (E4 : is_epoll s4 = false) by (rewrite (restsame_epoll _ _ (fs_rest _ _ _ S4)); assumption).
+    split; [congruence|]. intros _. rewrite W4. split; assumption.
+Qed.
+
+Lemma fd_register_try_ok : forall s k, FdInv (-1) s -> 0 <= k < 16 -> registered (fdt s k) = false ->
+  okr (TryPost k s (snd (fd_register_try s k))) (fst (fd_register_try s k)).
+Proof.
+  intros s k I K R. destruct (k_open (kern s) (fdnum (fdt s k))) eqn:O.
+  - destruct (try_open s k I K R) as [A B]; [congruence|]. rewrite A. exact B.
+  - destruct (try_closed s k I K R O) as [A B]. rewrite A. exact B.
 Qed.
